@@ -268,3 +268,55 @@ Definition layout_rows (thetas : list (list Q)) (draws : list (list (list Q))) :
 Definition qrows_eqb (x y : list (list Q)) : bool := Corr.list_eqb (Corr.list_eqb Qeq_bool) x y.
 Definition check_layout (thetas : list (list Q)) (draws : list (list (list Q))) (out : list (list Q)) : bool :=
   qrows_eqb (layout_rows thetas draws) out.
+
+(* ================= C04: one RV curve everywhere, Bayes identity ================= *)
+From TJ Require Import Model.RVCurve.
+(* observed for one sample row (posterior draw or hand-built): the linear parameters x in kernel units and design-matrix
+   order, the implementation's marginal and unmarginalised log-likelihoods, the RV of the reconstructed orbit at the data
+   epochs, each epoch's survey number (0 = reference) and dt = t - t_ref *)
+Record bobs := mk_bobs { bo_x : list Q; bo_ll_marg : Q; bo_ll_unmarg : Q; bo_orbit_rv : list Q; bo_sid : list nat; bo_dt : list Q }.
+Definition qsum (l : list bq) : bq := fold_right badd b0 l.
+Definition zip3 {A B C} (a : list A) (b : list B) (c : list C) : list (A * B * C) := combine (combine a b) c.
+Definition ln2pi_n (n : nat) : rexpr := RMul (RC (Z.of_nat n) 1) (RLn (RMul (RC 2 1) RPi)).
+Definition rq (x : bq) : rexpr := RQ (btoQ x).
+Definition tol_rel (t : Q) (o : Q) : Q := t * (if Qle_bool 1 (Corr.Qabs' o) then Corr.Qabs' o else 1).
+
+(* bit 0: orbit RV (+ own survey offset) = design-matrix row . x at every epoch
+   bit 1: ln_unmarginalized_likelihood = -1/2 sum[(y - M x)^2/(sigma^2+s^2) + ln(2 pi (sigma^2+s^2))]
+   bit 2: Bayes identity with the implementation's two numbers: marg = unmarg + ln p(x | theta) - ln N(x | a, A)
+   bit 3: the exact identities behind it hold for the model on this input (chi^2 and determinants, rational arithmetic)
+   bit 4: trend_M rows are (1, survey indicators, dt, dt^2, ..) *)
+Definition check_bayes (c : kcase) (o : bobs) : nat :=
+  match spec_run c, spec_Lambda c with
+  | Some so, Some la =>
+      let n := n_times c in let k := n_linear c in
+      let x := map B (bo_x o) in
+      let M := spec_M c in let v := spec_var c in let y := spec_y c in let mu := spec_mu c in
+      let Mx := map (fun r => dotq r x) M in
+      let noff := kc_n_offsets c in
+      let offs := firstn noff (skipn 2 (bo_x o)) in
+      let q_lik := qsum (map (fun t => let '(yn, mn, vn) := t in bdiv (sqb (bsub yn mn)) vn) (zip3 y Mx v)) in
+      let q_prior := qsum (map (fun t => let '(xi, mi, li) := t in bdiv (sqb (bsub xi mi)) li) (zip3 x mu la)) in
+      let d := map (fun xa => bsub (fst xa) (snd xa)) (combine x (so_a so)) in
+      let q_post := dotq d (map (fun r => dotq r d) (so_Ainv so)) in
+      let detC := qprod v in let detL := qprod la in
+      let detAinv := match qpivots k (so_Ainv so) with Some ps => babs (qprod ps) | None => b0 end in
+      let orbit_ok :=
+        forallb (fun t => let '(mn, sid, orb) := t in
+                   approx_b (1 # 1000000000) (bsub mn (B (survey_offset offs sid))) orb) (zip3 Mx (bo_sid o) (bo_orbit_rv o))
+        && Nat.eqb (length (bo_orbit_rv o)) n && Nat.eqb (length (bo_sid o)) n in
+      let ll_lik := RMul (RC (-1) 2) (RAdd (rq q_lik) (RAdd (ln2pi_n n) (RLn (rq detC)))) in
+      let unmarg_ok := rclose 70 (tol_rel (1 # 100000000) (bo_ll_unmarg o)) ll_lik (bo_ll_unmarg o) in
+      (* marg - unmarg + 1/2 (q_prior + ln det L) - 1/2 (q_post - ln det Ainv)  =  0 *)
+      let resid := RAdd (RSub (RQ (bo_ll_marg o)) (RQ (bo_ll_unmarg o)))
+                        (RMul (RC 1 2) (RSub (RAdd (rq q_prior) (RLn (rq detL))) (RSub (rq q_post) (RLn (rq detAinv))))) in
+      let bayes_ok := rclose 70 (tol_rel (1 # 1000000) (bo_ll_marg o)) resid (0 # 1) in
+      let exact_ok := beq (badd q_lik q_prior) (badd q_post (so_chi2 so)) && beq (so_absdet so) (bmul (bmul detC detL) detAinv) in
+      let trend_ok :=
+        forallb (fun t => let '(row, sid, dt) := t in
+                   Corr.list_eqb (Corr.approx_eqQ (1 # 1000000000000)) (trend_row noff (kc_n_poly c) sid dt) row)
+                (zip3 (kc_trend c) (bo_sid o) (bo_dt o)) && Nat.eqb (length (bo_dt o)) n in
+      ((if orbit_ok then 0 else 1) + (if unmarg_ok then 0 else 2) + (if bayes_ok then 0 else 4) + (if exact_ok then 0 else 8)
+       + (if trend_ok then 0 else 16))%nat
+  | _, _ => 31%nat
+  end.
